@@ -177,20 +177,14 @@ pub struct RunOut {
 pub fn run_conversation(kind: Kind, crc: bool, csd: [u8; 16], ops: &[SdOp], ch: Chooser) -> (Chooser, RunOut) {
     let mut card = Card::new(kind, csd);
     card.chooser = ch;
+    card.monitor = Some(Box::new(Monitor::new()));
     let c = conv(card, crc);
-    let mut mon = Monitor::new();
-    c.card.borrow_mut().trace = Some(Vec::new());
     let mut model: BTreeMap<u32, [u8; 512]> = BTreeMap::new();
     let cap = c.card.borrow().capacity_blocks;
     let mut out = RunOut { c12: vec![], c14: vec![], exchanges: 0, commands: 0, outcomes: vec![] };
     for (i, op) in ops.iter().enumerate() {
         let r = exec(&c, *op, i);
         out.outcomes.push(format!("{:?}: {}", op, r.class()));
-        // feed the monitor
-        let tr = std::mem::take(c.card.borrow_mut().trace.as_mut().unwrap());
-        for (a, b) in tr {
-            mon.feed(a, b);
-        }
         let in_range = match op {
             SdOp::Read(b, n) | SdOp::Write(b, n) => (*b as u64 + *n as u64) <= cap as u64,
             _ => true,
@@ -254,9 +248,13 @@ pub fn run_conversation(kind: Kind, crc: bool, csd: [u8; 16], ops: &[SdOp], ch: 
             _ => {}
         }
     }
-    mon.finish();
-    out.c14 = mon.violations.clone();
-    out.commands = mon.commands;
+    {
+        let mut cb = c.card.borrow_mut();
+        let mon = cb.monitor.as_mut().unwrap();
+        mon.finish();
+        out.c14 = mon.violations.clone();
+        out.commands = mon.commands;
+    }
     let card = c.card.borrow();
     out.exchanges = card.exchanges;
     let ch = card.chooser.clone();
@@ -473,7 +471,7 @@ pub fn run_c12(tier: &str) -> i32 {
     rep.cov("max_choice_points_in_one_run", json!(agg.max_points));
     rep.cov("csd_registers_checked", json!(cn));
     rep.cov("deviation_bound", json!(if tier == "quick" { "2 for single calls, 1 for sequences of two" } else { "2 up to depth 2, 1 at depth 3" }));
-    rep.cov("timing_menus", json!({"N_CR": NCR_MENU, "acmd41_idle_iterations": ACMD41_MENU, "data_token_delay": TOKEN_DELAY_MENU, "busy": BUSY_MENU}));
+    rep.cov("timing_menus", json!({"N_CR": NCR_MENU, "acmd41_idle_iterations": ACMD41_MENU, "data_token_delay": TOKEN_DELAY_MENU, "busy_after_write": BUSY_WRITE_MENU, "busy_after_stop": BUSY_MENU}));
     rep.cov("outcomes", json!(agg.outcomes));
     rep.cov("samples", json!([{"kind":"V2Sdhc","crc":true,"ops":["Write(255, 3)","Read(255, 3)"],"choices":"all default"}, {"kind":"V1Sdsc","crc":false,"ops":["Write(0, 1)","MarkUninit"],"choices":"busy-after-write#3"}]));
     rep.assumptions.push("card timings are menus, not all integers below the time-outs".into());
@@ -511,6 +509,7 @@ fn run_faulty(kind: Kind, crc: bool, fault: Fault, inp: &Value) -> (Vec<Violatio
     let mut out = Vec::new();
     let mut card = Card::new(kind, default_csd(kind));
     card.fault = fault.clone();
+    card.monitor = Some(Box::new(Monitor::new()));
     let c = conv(card, crc);
     let ops = scenario_ops(kind);
     let mut failed_at: Option<usize> = None;
@@ -599,13 +598,15 @@ fn run_faulty(kind: Kind, crc: bool, fault: Fault, inp: &Value) -> (Vec<Violatio
     }
     // recovery
     if let Some(i) = failed_at {
-        // a failure *of the identification sequence* (by its error variant) must leave the card marked uninitialised:
-        // the next call then re-runs identification by itself. Any other failure needs mark_card_uninit first.
-        let first_err = if i == 0 { exec_err_text(&c, &ops, i) } else { String::new() };
-        let during_init = i == 0
-            && ["CardNotFound", "CantEnableCRC", "TimeoutACommand", "Cmd58Error", "TimeoutCommand(0)", "TimeoutCommand(8)", "TimeoutCommand(55)", "TimeoutCommand(58)", "TimeoutCommand(59)", "TimeoutCommand(41)"]
-                .iter()
-                .any(|p| first_err.starts_with(p));
+        // a failure *of the identification sequence* must leave the card marked uninitialised: the next call then
+        // re-runs identification by itself. It is a failure of identification when the first call failed and the
+        // host never got as far as sending a post-identification command (CMD9/13/17/18/24/25).
+        // (judged from the responses the host actually received: a card that answers 0x00 to everything *passes*
+        // identification, and then the failure is one of the read, not of the identification)
+        let sent_data_cmd = c.card.borrow().host_cmds.iter().any(|x| matches!(x, 9 | 13 | 17 | 18 | 24 | 25));
+        let host_done = c.card.borrow().monitor.as_ref().map(|m| m.host_saw_identification_complete()).unwrap_or(false);
+        let during_init = i == 0 && !sent_data_cmd && !host_done;
+        let host_before = c.card.borrow().host_cmds.clone();
         // heal the card
         {
             let mut card = c.card.borrow_mut();
@@ -623,7 +624,7 @@ fn run_faulty(kind: Kind, crc: bool, fault: Fault, inp: &Value) -> (Vec<Violatio
             out.push(v(
                 "C13",
                 format!("no-recovery/{}", if during_init { "after-failed-initialisation-without-mark-uninit" } else { "after-mark-uninit" }),
-                format!("{}: after the failure of call {} ({:?}) and healing the card{}: read -> {}, write -> {}, read back -> {}", desc, i, ops[i], if during_init { "" } else { " and mark_card_uninit" }, r1.class(), r2.class(), r3.class()),
+                format!("{}: after the failure of call {} ({:?} -> {}; host commands sent so far {:?}) and healing the card{}: read -> {}, write -> {}, read back -> {}", desc, i, ops[i], exec_err_text(&c, &ops, i), host_before, if during_init { "" } else { " and mark_card_uninit" }, r1.class(), r2.class(), r3.class()),
                 inp.clone(),
             ));
         }
